@@ -137,6 +137,16 @@ Theorem C09_inflight_mark_cleared_at_end : forall sync s n ks k,
 Proof. exact mark_cleared_at_end. Qed.
 Print Assumptions C09_inflight_mark_cleared_at_end.
 
+(* mixed versions: the keys a version-0 transfer brings in are marked by its goroutine too, so a version-1 OFFER of such a
+   key is answered "in progress"; a version-0 OFFER is not filtered by the marks at all (code as it is; the property's
+   in-flight condition is stated for version 1 only) *)
+Theorem C09_v0_transfer_marks_for_v1 : forall k,
+  rx_accepted (rx_run false [EvOfferV0 [k]; EvGoroutineRuns 0; EvOffer [k]]) = [[]; [k]] /\
+  rx_accepted (rx_run false [EvOffer [k]; EvGoroutineRuns 0; EvOfferV0 [k]]) = [[k]; [k]] /\
+  rx_accepted (rx_run false [EvOfferV0 [k]; EvGoroutineRuns 0; EvOfferV0 [k]]) = [[k]; [k]].
+Proof. exact v0_transfer_marks_for_v1. Qed.
+Print Assumptions C09_v0_transfer_marks_for_v1.
+
 (* the three-offer scenario the harness plays on the real code (newest offer first): O1 [K] accepted and stalled, O2 [K;L]
    -> [in progress; accepted] and finished, O3 [K] -> in progress, O1 finishes, O4 [K] -> accepted *)
 Theorem C09_three_offer_scenario :
